@@ -317,9 +317,9 @@ func c11Judge(c *Ctx, e *c11Env, cs c11Case, what string, in, real *profile.Prof
 			}
 		}
 	}
-	// theorem prune_removes_only_leaf_side on the real code (unconditional: also in the known-finding
+	// theorems prune_removes_only_leaf_side, pruneFrom_removes_only_leaf_side on the real code (unconditional: also in the known-finding
 	// families): location lists and line lists only lose elements on the leaf side
-	if what != "prune_from" && !oracleFailed {
+	if !oracleFailed {
 		if msg := c11RemovesOnly(in, real); msg != "" {
 			oracleFailed = true
 			c.Violation("C11/"+what+"/not-a-root-side-suffix", what+" did more than remove leaf-side locations/lines: "+msg, cs)
